@@ -61,12 +61,15 @@ PROPERTIES["C08"] = dict(
 PROPERTIES["C14"] = dict(
     crate_dir="lsp4spl",
     attach={"signature_help.rs": "lsp4spl/src/features/signature_help.rs"},
-    functions={"lsp4spl/src/features/signature_help.rs": ["get_active_param"]},
+    functions={"lsp4spl/src/features/signature_help.rs": ["get_active_param", "find_call_stmt_in_stmt"]},
     explanation=(
         "The real signature_help::get_active_param is executed symbolically on the token slice of a call statement "
         "(adjacent tokens of symbolic kind, symbolic cursor offset from before the first token to past the last); CBMC "
         "decides that the active parameter is the number of commas that start before the cursor when the callee has "
-        "parameters and None when it has none. Only this clause of C14 is decided."),
+        "parameters and None when it has none. The real find_call_stmt_in_stmt is executed on statement trees "
+        "{ if (..) call } and { while (..) call } with symbolic Reference offsets, call length and cursor: the call is "
+        "returned iff the cursor lies inside it, together with the accumulated offset of its Reference chain. "
+        "Only these two clauses of C14 are decided."),
     assumptions=[
         "tokens are adjacent one-byte tokens (token i covers [i, i+1)); kinds drawn from {',', '(', ')', ';', int}",
         "hover text, signature label, choice of the enclosing call and the symbol-table lookup are outside (HashMap / parser out of reach)",
@@ -76,6 +79,8 @@ PROPERTIES["C14"] = dict(
     harnesses=[
         H("features::signature_help::__verif::c14_active_q", Q, "active parameter == #commas before cursor; None without parameters", "4 tokens of symbolic kind, cursor <= 6", timeout=600),
         H("features::signature_help::__verif::c14_active_t", T, "same", "7 tokens with symbolic gaps/widths, cursor anywhere", timeout=1800),
+        H("features::signature_help::__verif::c14_enclosing_call_if", QT, "find_call_stmt_in_stmt: call nested in block/if is found iff the cursor is inside it, with the accumulated Reference offset", "tree { if (..) call }, symbolic base/Reference offsets (<=2), call length 1..2, cursor; 7 adjacent one-byte tokens", timeout=900, mem_gb=24),
+        H("features::signature_help::__verif::c14_enclosing_call_while", QT, "same for { while (..) call }", "symbolic offsets, call length, cursor", timeout=900, mem_gb=24),
         H("features::signature_help::__verif::c14_twin_must_fail", QT, "vacuity twin", "", expect="fail", timeout=600),
     ],
 )
@@ -84,7 +89,7 @@ PROPERTIES["C14"] = dict(
 PROPERTIES["C15"] = dict(
     crate_dir="lsp4spl",
     attach={"document.rs": "lsp4spl/src/document.rs", "semantic_tokens.rs": "lsp4spl/src/features/semantic_tokens.rs"},
-    functions={"lsp4spl/src/features/semantic_tokens.rs": ["collect_error", "map_token", "create_semantic_token"],
+    functions={"lsp4spl/src/features/semantic_tokens.rs": ["collect_error", "collect_type_dec", "map_token", "create_semantic_token"],
                "lsp4spl/src/document.rs": ["as_position"]},
     explanation=(
         "The real collect_error / map_token / create_semantic_token (with the real document::as_position) are executed "
@@ -106,6 +111,7 @@ PROPERTIES["C15"] = dict(
     harnesses=[
         H("features::semantic_tokens::__verif::c15_s1_chain_q", Q, "create_semantic_token/map_token: delta of two consecutive classified tokens decodes to their LSP positions; UTF-16 length", "any valid UTF-8 text <= 4 bytes, 2 tokens on symbolic char-boundary ranges; unwind 6", timeout=1200),
         H("features::semantic_tokens::__verif::c15_s1_collect_across", QT, "real collect_error on two consecutive declarations sharing previous_token_pos", "same text, one token of symbolic kind/range per declaration", timeout=1500, mem_gb=24),
+        H("features::semantic_tokens::__verif::c15_s1_typedec_across", QT, "real collect_type_dec on two consecutive type declarations sharing previous_token_pos; identifiers classified as TYPE", "concrete 13-byte text, one token of symbolic kind/range per declaration (name: None)", timeout=1500, mem_gb=24),
         H("features::semantic_tokens::__verif::c15_s3_all_kinds", QT, "map_token for each of the 36 token kinds", "one token, all kinds, symbolic literal values", timeout=600),
         H("features::semantic_tokens::__verif::c15_twin_must_fail", QT, "vacuity twin", "", expect="fail", timeout=600),
         H("features::semantic_tokens::__verif::c15_s1_chain_t", T, "same as s1_chain_q", "any valid UTF-8 text <= 6 bytes; unwind 8", timeout=3600, mem_gb=24),
